@@ -18,12 +18,17 @@ def validate_encoded(string):
 
 def _parse_json(string):
   try:
-    return json.loads(string)
+    value = json.loads(string)
   except Exception as err:
     raise gfapy.FormatError(
       "{} is not a valid JSON string\n".format(repr(string))+
       "json.loads raised a {} exception\n".format(err.__class__.__name__)+
       "error message: {}".format(str(err))) from err
+  if not isinstance(value, list) and not isinstance(value, dict):
+    raise gfapy.FormatError(
+      "{} is not a valid JSON field\n".format(repr(string))+
+      "(it does not contain a JSON array or object)")
+  return value
 
 def validate_decoded(obj):
   if isinstance(obj, gfapy.FieldArray):
